@@ -187,6 +187,31 @@ def evaluate(syms, mods, counters=None, deep=True):
                                                 f"{new_lines!r}, expected {want!r}"))
             except Exception as ex:
                 problems.append(("rewrite", f"pattern {pattern_w!r}: rewrite raised {type(ex).__name__}: {ex}"))
+    # (2b) the same field several times in one pattern (parts with alternations inside): literal text between
+    #      repeated parts must still delimit, and a line holding only a fragment must not match
+    if not lead and not trail and not (text[-1:].isdigit() or text[:1].isdigit()):
+        pattern_r = pattern + "0M.0D" + pattern + "0D/0M" + pattern + "TAG-TAG"
+        text_r = text + "11.23" + text + "23/11" + text + "beta-beta"
+        rx, err = compile_v2(pattern_r)
+        if rx is None:
+            problems.append(("compile", f"pattern {pattern_r!r} does not compile: {err!r}"))
+        else:
+            c("k07_structure_checks")
+            for pr in contracts.regex_structure_problems(pattern_r, rx.pattern):
+                problems.append(("structure", f"pattern {pattern_r!r} -> regex {rx.pattern!r}: {pr}"))
+            hay = "zq " + text_r + " qz"
+            m = rx.search(hay)
+            c("self_match_checks")
+            if m is None or m.span() != (hay.find(text_r), hay.find(text_r) + len(text_r)):
+                problems.append(("self-match", f"pattern {pattern_r!r} on {hay!r}: {m.span() if m else None}"))
+            for decoy in ("timeout = 25", "09", "x 12 y", "rc", "beta", text + "11.23" + text, "23/11" + text + "beta"):
+                if text_r in decoy:
+                    continue
+                c("near_miss_checks")
+                m2 = rx.search(decoy)
+                if m2 is not None and len(m2.group(0)) > 0:
+                    problems.append(("near-miss", f"pattern {pattern_r!r} matches the fragment {decoy!r} at {m2.span()}"))
+                    break
     # (3) legacy compiler: alphabet minus braces, brackets are plain literals there
     if "{" not in pattern and "}" not in pattern and not lead and not trail:
         lp = pattern + "{MAJOR}.{MINOR}"
